@@ -69,6 +69,15 @@ def run_api_property(prop, tier, clauses, design=None, extra_assumptions=(), non
     shutil.rmtree(wd, ignore_errors=True)
     rows = [e for e in events if e["ev"] == "row"]
     runs = [e for e in events if e["ev"] == "run"]
+    lost = sum(max(0, r["ninputs"] - max(r["nrows"], 0)) for r in runs)
+    total_in = sum(r["ninputs"] for r in runs)
+    rep.extra["valid_input_rows_not_returned"] = lost
+    if lost:
+        print("ROWS-LOST property=%s %d of %d valid input rows were not returned (pipeline raised in a batch); "
+              "the clauses were evaluated on the returned rows only" % (prop, lost, total_in))
+    if total_in and lost * 2 > total_in:
+        raise common.MachineryError("more than half of the valid input rows were not returned by rebalance(); "
+                                    "the property cannot be judged (see C05 / C18 for the lost rows)")
     rep.extra.update({
         "rows_judged": len(rows),
         "runs": [{"name": r["name"], "inputs": r["ninputs"], "rows": r["nrows"], "cfg": r["cfg"],
